@@ -15,7 +15,7 @@ from ..core import rule, AnalysisError
 from ..engine import flow
 from ..engine import pattern as P
 from ..engine.facts import dotted, const, src, walk_func, str_value, enclosing_stmt, ancestors
-from .common import calls, raise_names, contains
+from .common import calls, raise_names, contains, pn, access_paths
 from . import c12  # line-split-agreement is registered for C11 there
 
 PARSERS = {"ast.PythonCode", "ast.PythonFragment", "ast.ArgumentList", "ast.FunctionDecl", "ast.FunctionArgs",
@@ -150,35 +150,47 @@ def offset_algebra(ctx):
     """where code is wrapped as P + code + Q before parsing, the reported line is base + offset + parsed - 1 with offset = -(newlines in P); stripping leading whitespace adds the stripped newlines"""
     db = ctx.db
     pf = db.func("ast.PythonFragment.__init__")
-    chain = [i for i in pf.body if isinstance(i, ast.If) and "keyword" in src(i.test)]
+    def _kwtest(t_):
+        if isinstance(t_, ast.Compare) and isinstance(t_.left, ast.Name) and len(t_.comparators) == 1:
+            c_ = t_.comparators[0]
+            if isinstance(c_, ast.Constant) and isinstance(c_.value, str):
+                return [c_.value]
+            if isinstance(c_, (ast.List, ast.Tuple, ast.Set)) and all(isinstance(const(e_), str) for e_ in c_.elts):
+                return [const(e_) for e_ in c_.elts]
+        return None
+    chain = [i for i in pf.body if isinstance(i, ast.If) and _kwtest(i.test)]
     ctx.require(chain, "PythonFragment: keyword dispatch not found")
     cur = chain[-1]
+    sup = [c for c in walk_func(pf) if isinstance(c, ast.Call) and dotted(c.func) == "super().__init__"]
+    offkw = [k.value for c in sup for k in c.keywords if k.arg == "lineno_offset"]
+    offvar = offkw[0].id if offkw and isinstance(offkw[0], ast.Name) else None
+    codevar = pn(pf, 1)
     n = 0
     while True:
         body = cur.body
         prefix = ""
         off = 0
         for s in body:
-            if isinstance(s, ast.Assign) and src(s.targets[0]) == "code" and isinstance(s.value, ast.BinOp):
+            if isinstance(s, ast.Assign) and src(s.targets[0]) == codevar and isinstance(s.value, ast.BinOp):
                 # leftmost constant operand of the concatenation
                 left = s.value
                 while isinstance(left, ast.BinOp) and isinstance(left.op, ast.Add):
                     left = left.left
                 if isinstance(left, ast.Constant) and isinstance(left.value, str):
                     prefix = left.value
-            if isinstance(s, ast.Assign) and src(s.targets[0]) == "lineno_offset":
+            if isinstance(s, ast.Assign) and offvar is not None and src(s.targets[0]) == offvar:
                 off = const(s.value)
         if not any(isinstance(s, ast.Raise) for s in body):
             n += 1
             want = -prefix.count("\n")
-            ctx.check(off == want, "fragment[%s]" % src(cur.test)[:40], db.where(cur), "fragment is prefixed with %r (%d line(s)) but lineno_offset is %s: errors in such control lines are reported %+d line(s) off" % (prefix, prefix.count("\n"), off, (off or 0) - want), "prefix %r <-> offset %s" % (prefix, off))
+            ctx.check(off == want, "fragment[%s]" % ",".join(_kwtest(cur.test) or ["?"]), db.where(cur), "fragment is prefixed with %r (%d line(s)) but lineno_offset is %s: errors in such control lines are reported %+d line(s) off" % (prefix, prefix.count("\n"), off, (off or 0) - want), "prefix %r <-> offset %s" % (prefix, off))
         if len(cur.orelse) == 1 and isinstance(cur.orelse[0], ast.If):
             cur = cur.orelse[0]
         else:
             break
     ctx.require(n >= 5, "PythonFragment branches found: %d" % n)
-    sup = [c for c in walk_func(pf) if isinstance(c, ast.Call) and dotted(c.func) == "super().__init__"]
-    ctx.check(bool(sup) and any(k.arg == "lineno_offset" and src(k.value) == "lineno_offset" for k in sup[0].keywords), "fragment.offset-passed", db.where(pf), "the offset is not handed to PythonCode", "lineno_offset forwarded")
+    dflt = [s for s in pf.body if isinstance(s, ast.Assign) and offvar is not None and src(s.targets[0]) == offvar]
+    ctx.check(bool(sup) and offvar is not None and bool(dflt) and const(dflt[0].value) == 0, "fragment.offset-passed", db.where(pf), "the offset is not handed to PythonCode", "lineno_offset forwarded")
     pc = db.func("ast.PythonCode.__init__")
     t = src(pc)
     ctx.check(P.has(pc, "$s = $c.lstrip()\n...\n$o += $c[:len($c) - len($s)].count('\\n')"), "code.strip-offset", db.where(pc), "leading blank lines stripped from a block are not added to the line offset", "offset += newlines stripped")
@@ -189,8 +201,17 @@ def offset_algebra(ctx):
     for x in d:
         for k, v in zip(x.keys, x.values):
             if k is not None and const(k) == "lineno":
-                val = src(v).replace(" ", "")
-    ctx.check(val in ("lineno+lineno_offset+exc_lineno-1", "lineno+lineno_offset+(exc_lineno-1)", "lineno+exc_lineno+lineno_offset-1"), "adjust.formula", db.where(al), "reported line is %s, expected base + offset + parsed - 1" % val, "base + offset + parsed - 1")
+                val = v
+    offp = pn(al, 1)
+    forms = ["$b + %s + $x - 1" % offp, "$b + %s + ($x - 1)" % offp, "$b + $x + %s - 1" % offp, "$b + $x - 1 + %s" % offp]
+    okf = False
+    for f_ in forms:
+        for _n, env_ in (P.find(val, f_) if val is not None else []):
+            b_, x_ = env_["b"][1], env_["x"][1]
+            if _n is val and isinstance(b_, ast.Name) and isinstance(x_, ast.Name):
+                okf = P.has(al, "%s = $k.get('lineno')" % b_.id) and P.has(al, "%s = getattr($e, 'lineno', None)" % x_.id)
+    val = src(val) if val is not None else None
+    ctx.check(okf, "adjust.formula", db.where(al), "reported line is %s, expected base + offset + parsed - 1" % val, "base + offset + parsed - 1")
     pp = db.func("pyparser.parse")
     ctx.check(P.has(pp, "_adjust_lineno($e, lineno_offset, exception_kwargs)"), "adjust.used", db.where(pp), "pyparser.parse does not adjust the reported line", "adjusted from the Python error's line")
 
@@ -202,12 +223,13 @@ def start_captured(ctx):
     put = db.func("lexer.Lexer.parse_until_text")
     loop = [n for n in walk_func(put) if isinstance(n, ast.While)]
     ctx.require(loop, "parse_until_text: loop not found")
-    saves = {src(s.targets[0]): s for s in put.body if isinstance(s, ast.Assign) and s.lineno < loop[0].lineno}
-    ctx.check(src(saves.get("startlineno").value) == "self.matched_lineno" if "startlineno" in saves else False, "scan.save-line", db.where(put), "the start line is not saved before scanning", "startlineno saved before the loop")
-    ctx.check(src(saves.get("startcharpos").value) == "self.matched_charpos" if "startcharpos" in saves else False, "scan.save-col", db.where(put), "the start column is not saved before scanning", "startcharpos saved before the loop")
+    saves = {src(s.value): src(s.targets[0]) for s in put.body if isinstance(s, ast.Assign) and s.lineno < loop[0].lineno and isinstance(s.targets[0], ast.Name)}
+    sl_, sc_ = saves.get("self.matched_lineno"), saves.get("self.matched_charpos")
+    ctx.check(sl_ is not None, "scan.save-line", db.where(put), "the start line is not saved before scanning", "start line saved before the loop")
+    ctx.check(sc_ is not None, "scan.save-col", db.where(put), "the start column is not saved before scanning", "start column saved before the loop")
     rs = [r for r in walk_func(put) if isinstance(r, ast.Raise)]
-    t = src(rs[0]) if rs else ""
-    ctx.check(bool(rs) and "startlineno" in saves and "startcharpos" in saves and P.has(rs[0], "{**$_, 'lineno': startlineno, 'pos': startcharpos}"), "scan.raise-start", db.where(rs[0]) if rs else db.where(put), "an unterminated construct is reported where the scan gave up, not where it began", "raises with the saved start")
+    reassigned = any(isinstance(s, ast.Name) and isinstance(s.ctx, ast.Store) and s.id in (sl_, sc_) for s in ast.walk(loop[0]))
+    ctx.check(bool(rs) and sl_ is not None and sc_ is not None and not reassigned and P.has(rs[0], "{**$_, 'lineno': %s, 'pos': %s}" % (sl_, sc_)), "scan.raise-start", db.where(rs[0]) if rs else db.where(put), "an unterminated construct is reported where the scan gave up, not where it began", "raises with the saved start")
     for q, opener in (("lexer.Lexer.match_python_block", "<%"), ("lexer.Lexer.match_expression", "${")):
         fn = db.func(q)
         sv = [s for s in walk_func(fn) if isinstance(s, ast.Assign) and src(s.value).replace(" ", "") in ("(self.matched_lineno,self.matched_charpos)", "self.matched_lineno,self.matched_charpos")]
